@@ -111,7 +111,11 @@ func NormalizeInput(item bool, in map[string]any) (map[string]any, error) {
 	for _, f := range fields {
 		known[f.name] = true
 		v, ok := in[f.name]
-		if !ok || v == nil {
+		if ok && v == nil {
+			// a key that is present with a null value is not an absent key: the schema refuses it
+			return nil, fmt.Errorf("field %s: null cannot be converted", f.name)
+		}
+		if !ok {
 			if f.required {
 				return nil, fmt.Errorf("missing required field %s", f.name)
 			}
@@ -172,7 +176,9 @@ func NormalizeInput(item bool, in map[string]any) (map[string]any, error) {
 				return nil, err
 			}
 			n["x"] = xi
-			if y, ok := m["y"]; ok && y != nil {
+			if y, ok := m["y"]; ok && y == nil {
+				return nil, fmt.Errorf("nested.y: null cannot be converted")
+			} else if ok {
 				ys, err := toStr(y)
 				if err != nil {
 					return nil, err
